@@ -1201,7 +1201,7 @@ func runBitmapInv(c *Ctx) {
 func init() {
 	Register(&Rule{
 		Name:  "R-TAIL-SATURATES",
-		Props: []string{"C17"},
+		Props: []string{"C17", "C01", "C06"},
 		Min:   1,
 		Doc: "the verify tail reaches back to chunk 0 when it is longer than what was received: the variable that becomes resumePlan.forceSendFrom is unsigned, so every `x -= t` on it is one branch of a saturating subtraction whose other branch (t >= x) sets x = 0 - " +
 			"without that branch a resume whose highest complete chunk index is smaller than the tail keeps forceSendFrom at verified+1, and the chunks inside the tail (present in the bitmap, to be sent again) are handed to no worker",
